@@ -35,11 +35,12 @@ func gov() string { return appparams.GetAuthority() }
 // current period, start/end times moved into the past or future, amounts changed, the current period dropped (must be refused).
 func (g *govWorld) minterUpdate(r *kernel.Run, rng *kernel.Rng, authority string) sdk.Msg {
 	c := r.Chain
-	cur := c.App.CfeminterKeeper.GetParams(c.Ctx())
+	cur := c.MinterParams()
 	st := c.App.CfeminterKeeper.GetMinterState(c.Ctx())
 	now := c.Now
 	var p mintertypes.Params
-	switch rng.Intn(6) {
+	reversed := false
+	switch rng.Intn(7) {
 	case 0, 1:
 		// brand-new schedule around now (sequence ids start at 1; valid only while the current id is among them)
 		np, err := GenMinterParams(rng, now, cur.MintDenom, g.MinterCfg)
@@ -98,18 +99,58 @@ func (g *govWorld) minterUpdate(r *kernel.Run, rng *kernel.Rng, authority string
 			}
 		}
 	default:
-		// drop the current period: must be refused, the stored schedule must stay
-		p = cloneMinterParams(cur)
-		var keep []*mintertypes.Minter
-		for _, m := range p.Minters {
-			if m.SequenceId != st.SequenceId {
-				keep = append(keep, m)
+		// a schedule that is valid on its own but does not contain the current period (ids just below or just above it):
+		// must be refused, the stored schedule must stay
+		np, err := GenMinterParams(rng, now, cur.MintDenom, g.MinterCfg)
+		if err != nil {
+			return nil
+		}
+		ms := append([]*mintertypes.Minter(nil), np.Minters...)
+		for i := 0; i < len(ms); i++ { // ascending by the generated ids
+			for j := i + 1; j < len(ms); j++ {
+				if ms[j].SequenceId < ms[i].SequenceId {
+					ms[i], ms[j] = ms[j], ms[i]
+				}
 			}
 		}
-		p.Minters = keep
+		n := uint32(len(ms))
+		first := st.SequenceId + 1
+		if st.SequenceId > n && rng.Bool() {
+			first = st.SequenceId - n
+		}
+		for i, m := range ms {
+			m.SequenceId = first + uint32(i)
+		}
+		p = np
+		if first < st.SequenceId && rng.P(0.6) {
+			// listed from the highest id down (validation accepts any order; real governance re-encodes the
+			// message after ValidateBasic sorted it, a direct caller of the message server does not)
+			for i, m := range ms {
+				p.Minters[len(ms)-1-i] = m
+			}
+			reversed = true
+		}
 	}
 	if g.SaneMinter && authority == gov() && !minterParamsSane(p) {
 		return nil
+	}
+	// the payload may list the periods in any order
+	if !reversed && rng.P(0.4) && len(p.Minters) > 1 {
+		rng.Shuffle(len(p.Minters), func(i, j int) { p.Minters[i], p.Minters[j] = p.Minters[j], p.Minters[i] })
+	}
+	if len(p.Minters) > 0 && authority == gov() {
+		contains := false
+		for _, m := range p.Minters {
+			if m.SequenceId == st.SequenceId {
+				contains = true
+			}
+		}
+		f := p.Minters[0].SequenceId
+		if !contains && st.SequenceId >= f && st.SequenceId-f < uint32(len(p.Minters)) {
+			r.Stats.Inc("probe.gov_update_without_current_period_listed_out_of_order")
+		} else if !contains {
+			r.Stats.Inc("probe.gov_update_without_current_period")
+		}
 	}
 	if rng.Bool() {
 		return &mintertypes.MsgUpdateMintersParams{Authority: authority, StartTime: p.StartTime, Minters: p.Minters}
@@ -131,7 +172,7 @@ func cloneMinterParams(p mintertypes.Params) mintertypes.Params {
 
 func (g *govWorld) distUpdate(r *kernel.Run, rng *kernel.Rng, authority string) sdk.Msg {
 	c := r.Chain
-	cur := c.App.CfedistributorKeeper.GetParams(c.Ctx())
+	cur := c.DistParams()
 	switch rng.Intn(5) {
 	case 0:
 		np, err := GenDistParams(rng, g.DistCfg)
@@ -272,9 +313,13 @@ func (g *govWorld) genGovTx(r *kernel.Run, rng *kernel.Rng) *kernel.Tx {
 		auths := []string{gov(), gov(), kernel.ActorBech(g.attacker(rng)), "", "gov"}
 		au := auths[rng.Intn(len(auths))]
 		if m := g.anyUpdate(r, rng, au); m != nil {
-			t := msgTx(g.attacker(rng), m, "direct")
+			route, note := "direct", "direct-handler"
+			if _, isVesting := m.(*vtypes.MsgUpdateDenomParam); !isVesting && rng.P(0.4) {
+				route, note = "srv", "direct-message-server"
+			}
+			t := msgTx(g.attacker(rng), m, route)
 			if t != nil {
-				t.Note = "direct-handler"
+				t.Note = note
 			}
 			return t
 		}
